@@ -964,3 +964,69 @@ def c20(ctx):
     ctx.cov["rule"] = ("one evaluation = one VOLE session of 2-3 Mul calls (lengths 1..2000 across chunk boundaries, large and small moduli, "
                        "elements 0/1/p-1/short/random) with every element checked, or a batch of Fx/Fxk runs over all (a,b) and boundary labels, "
                        "sequential and from 8 concurrent instances; all non-trivial")
+
+
+# ---------------------------------------------------------------------- C03
+MPCL_CFG = """SPECIFICATION Spec
+CONSTANTS
+  Widths = %s
+  MaxStmts = %d
+  Kinds = %s
+%s
+CHECK_DEADLOCK FALSE
+"""
+MPCL_ALL_KINDS = '{"const", "lit", "bin", "cmp", "logic", "neg", "shift", "cast", "if", "ifnest", "ifret", "loop", "arr", "call", "struct"}'
+
+
+def mpcl_cases(ctx, name, widths, nstmts, num, kinds=MPCL_ALL_KINDS, limit=None):
+    g = ctx.tlc("MpclGen", "Mpcl_gen.cfg", mode="sim", workers=1, sim="num=%d" % num, depth=nstmts + 3, name=name, timeout=3000,
+                cfg_text=MPCL_CFG % (widths, nstmts, kinds, "CONSTRAINT Emit"))
+    if g["status"] != "ok" or not g["cases"]:
+        raise Broken("MpclGen failed: %s\n%s" % (g["status"], g["out"][-2000:]))
+    seen, uniq = set(), []
+    for c in sorted(g["cases"], key=lambda c: -len(c["stmts"])):
+        k = json.dumps(c, sort_keys=True)
+        if k not in seen:
+            seen.add(k)
+            uniq.append(c)
+    return uniq[:limit] if limit else uniq
+
+
+@prop("C03")
+def c03(ctx):
+    thorough = ctx.tier == "thorough"
+    ctx.build()
+    ctx.assumptions += ["only the modelled core of the language is claimed (Mpcl.tla header); pointers, make, strings, natives and builtin packages "
+                        "are covered through the shipped @Test vectors only",
+                        "signed modulo is |a| mod |b| and widening casts sign-extend only between signed types, as the shipped vectors / the "
+                        "compiler's own rule fix them; division by zero is unspecified and never generated",
+                        "TLC's integers limit the interpreter to widths <= 13; wider operands are covered by C07's relational checks"]
+    # (M) the interpreter is total and type-correct on every program of <= 2 statements (states = programs)
+    ctx.tlc_expect_ok("MpclGen", "Mpcl_mc.cfg", name="mpcl-mc", timeout=3000,
+                      cfg_text=MPCL_CFG % ("{1, 3}", 2 if thorough else 1,
+                                           '{"const", "lit", "bin", "cmp", "logic", "neg", "shift", "cast", "if", "ifret", "loop", "call"}',
+                                           "INVARIANT ResultTyped"))
+    if not thorough:
+        ctx.tlc_expect_ok("MpclGen", "Mpcl_mc.cfg", name="mpcl-sim", mode="sim", sim="num=300", depth=8, workers=4, timeout=3000,
+                          cfg_text=MPCL_CFG % ("{1, 3, 8}", 5, MPCL_ALL_KINDS, "INVARIANT ResultTyped"))
+    # (G) programs with predicted results, compiled and evaluated by the real compiler
+    cases = mpcl_cases(ctx, "mpcl-gen-a", "{1, 3, 8, 13}", 6, 4000 if thorough else 500, limit=20000 if thorough else 2500)
+    cases += mpcl_cases(ctx, "mpcl-gen-b", "{2, 5, 9, 12}", 8, 2000 if thorough else 200, limit=8000 if thorough else 800)
+    # control flow only: comparisons, nested ifs, calls inside branches, early returns
+    cases += mpcl_cases(ctx, "mpcl-gen-c", "{3, 8}", 6, 2000 if thorough else 300, limit=6000 if thorough else 700,
+                        kinds='{"cmp", "lit", "bin", "if", "ifnest", "ifret", "logic"}')
+    cf = os.path.join(ctx.tmp, "c03cases.ndjson")
+    write_ndjson(cf, cases)
+    rf = os.path.join(ctx.tmp, "c03res.ndjson")
+    ctx.run_vh(["c03", "replay", cf, rf], timeout=3400)
+    n = ctx.absorb(rf)
+    ctx.cov["traces_validated_against_impl"] += ctx.cov.get("classes", {}).get("compared", 0)
+    ctx.cov["programs_generated"] = len(cases)
+    # every shipped @Test vector
+    vf = os.path.join(ctx.tmp, "c03vec.ndjson")
+    ctx.run_vh(["c03", "vectors", vf], timeout=3400)
+    ctx.absorb(vf)
+    ctx.cov["rule"] = ("one evaluation = one generated program (rendered to MPCL, compiled, evaluated on up to 49 boundary input pairs against the "
+                       "interpreter) or one shipped test program with all its @Test vectors; non-trivial = at least three statements; class "
+                       "`rejected` = the compiler refuses the program (not counted as held or violated)")
+    ctx.check_drift()
